@@ -83,6 +83,20 @@ def run(ctx: Ctx) -> None:
             # plans that fail on their own (known defects of other properties) are not fault-enumeration material
             ctx.tag("skipped_plans_failing_without_fault", 1)
             continue
+        baseline_ok: Dict[str, bool] = {"sync": True}
+
+        def mode_ok(mode: str) -> bool:
+            # fault enumeration only in modes in which the plan runs to completion without a fault (plans that fail on their
+            # own in a mode - known defects of other properties - would raise their own error first)
+            if mode not in baseline_ok:
+                S.FAULTS.clear()
+                GROUP_FAULTS.clear()
+                b = S.run_session(sess, mode, timeout=BOUND_S)
+                baseline_ok[mode] = b.error is None and not b.timed_out
+                if not baseline_ok[mode]:
+                    ctx.tag("mode_skipped_failing_without_fault", mode)
+            return baseline_ok[mode]
+
         for i, st in enumerate(exp["steps"]):
             kinds = ["execute"]
             if st["kind"] == "fg":
@@ -91,6 +105,8 @@ def run(ctx: Ctx) -> None:
                 kinds = ctx.rng.sample(kinds, min(2, len(kinds)))
             for kind in kinds:
                 for mode in ["sync", "thread"] + (["mp"] if ctx.rng.random() < (0.12 if ctx.quick else 0.3) else []):
+                    if mode != "sync" and not mode_ok(mode):
+                        continue
                     for stream in ([False, True] if ctx.rng.random() < 0.5 else [False]):
                         S.FAULTS.clear()
                         GROUP_FAULTS.clear()
@@ -124,7 +140,8 @@ def run(ctx: Ctx) -> None:
                             got = len(rr.yielded) if stream else (len(rr.results) if rr.results is not None else None)
                             ctx.violation("faults", case, f"run returned ({got} tables) although step {i} raised ({kind})", "returned", "raise")
                         elif marker not in rr.error:
-                            ctx.violation("faults", case, f"raised error does not carry the original message {marker!r}", rr.error[-300:], marker)
+                            fclass = "threading-overlapping-steps-on-shared-cfw" if (mode == "thread" and S.overlap_on_shared_fw(exp, rr.events)) else None
+                            ctx.violation("faults", case, f"raised error does not carry the original message {marker!r}", rr.error[-300:], marker, finding_class=fclass)
                         ctx.tag("wall_s", "<1" if wall < 1 else "<5" if wall < 5 else ">=5")
                         if obs:
                             lean_reqs.append({"op": "C08.accepts", "steps": lp["steps"], "obs": obs})
